@@ -392,4 +392,116 @@ theorem addWaiters_spec (ws : List WaiterCmd) :
         exact Or.inl hx
     · exact Or.inr (by simp [hx])
 
+-- ------------------------------------- replies reflect the completed waiter ---
+
+theorem lookupW_eraseW_ne {p : List Waiter} {op x : Nat} (h : x ≠ op) :
+    lookupW (eraseW p op) x = lookupW p x := by
+  unfold lookupW eraseW
+  induction p with
+  | nil => rfl
+  | cons a t ih =>
+    by_cases ha : a.op = op
+    · have hb : (a.op != op) = false := by simp [ha]
+      have hx : (a.op == x) = false := by
+        rw [ha, beq_eq_false_iff_ne]
+        exact fun e => h e.symm
+      simp only [List.filter_cons, hb, Bool.false_eq_true, if_false, List.find?_cons, hx]
+      exact ih
+    · have hb : (a.op != op) = true := by simpa using ha
+      simp only [List.filter_cons, hb, if_true, List.find?_cons]
+      split
+      · rfl
+      · exact ih
+
+/-- every reply of the completion loop carries op / mode / target / records of the waiter
+    that was pending under that op when the loop started -/
+theorem completeLoop_reflects (hw : Nat) (order : List Nat) :
+    ∀ p : List Waiter, ∀ rp ∈ (completeLoop hw order p).2,
+      ∃ w, lookupW p rp.op = some w ∧ rp.mode = w.mode ∧ rp.target = w.target ∧ rp.seqs = w.recs ∧ rp.err = .ok := by
+  induction order with
+  | nil => intro p rp h; simp [completeLoop] at h
+  | cons op rest ih =>
+    intro p
+    unfold completeLoop
+    split
+    · exact ih p
+    · next w hw1 =>
+      split
+      · exact ih p
+      · split
+        · exact ih p
+        · intro rp hrp
+          simp only [List.mem_cons] at hrp
+          rcases hrp with hrp | hrp
+          · subst hrp
+            exact ⟨w, hw1, rfl, rfl, rfl, rfl⟩
+          · obtain ⟨w', h1, h2⟩ := ih (eraseW p op) rp hrp
+            have hne : rp.op ≠ op := (mem_keysW_eraseW.mp (lookupW_some_mem_keys h1)).2
+            rw [lookupW_eraseW_ne hne] at h1
+            exact ⟨w', h1, h2⟩
+
+theorem find_replace (w : Waiter) (x : Nat) (p : List Waiter) :
+    List.find? (fun v => v.op == x) (p.map (fun y => if y.op == w.op then w else y)) = some w ∨
+    List.find? (fun v => v.op == x) (p.map (fun y => if y.op == w.op then w else y)) =
+      List.find? (fun v => v.op == x) p := by
+  induction p with
+  | nil => right; rfl
+  | cons a t ih =>
+    simp only [List.map_cons, List.find?_cons]
+    by_cases ha : a.op = w.op
+    · simp only [ha, BEq.rfl, if_true]
+      by_cases hx : w.op = x
+      · left; simp [hx]
+      · have : (w.op == x) = false := by simpa using hx
+        simp only [this]
+        exact ih
+    · have hb : (a.op == w.op) = false := by simpa using ha
+      simp only [hb, Bool.false_eq_true, if_false]
+      split
+      · right; rfl
+      · exact ih
+
+theorem lookupW_setW_has {p : List Waiter} {w : Waiter} (x : Nat) :
+    lookupW (setW p w) x = some w ∨ lookupW (setW p w) x = lookupW p x := by
+  unfold setW
+  split
+  · exact find_replace w x p
+  · unfold lookupW
+    rw [List.find?_append]
+    cases hf : List.find? (fun w => w.op == x) p with
+    | some v => right; simp
+    | none =>
+      simp only [Option.none_or, List.find?_cons, List.find?_nil]
+      split
+      · left; rfl
+      · right; rfl
+
+/-- assigning stored offsets never changes a waiter's commit mode -/
+theorem assignLoop_mode (recs : List Nat) (ops : List Nat) :
+    ∀ (counts : List Nat) (next : Nat) (p : List Waiter) (x : Nat) (w' : Waiter),
+      lookupW (assignLoop recs ops counts next p) x = some w' →
+      ∃ w, lookupW p x = some w ∧ w.mode = w'.mode := by
+  induction ops with
+  | nil => intro counts next p x w' h; exact ⟨w', h, rfl⟩
+  | cons op rest ih =>
+    intro counts next p x w' h
+    unfold assignLoop at h
+    dsimp only at h
+    split at h
+    · exact ih _ _ _ _ _ h
+    · next w hw =>
+      obtain ⟨w1, h1, h2⟩ := ih _ _ _ _ _ h
+      rcases lookupW_setW_has (p := p) (w := (assignOne recs w (counts.headD 0) next).1) x with h3 | h3
+      · rw [h3] at h1
+        have hw1 : w1 = (assignOne recs w (counts.headD 0) next).1 := (Option.some.inj h1).symm
+        -- x is the op of the updated waiter
+        have hx : x = op := by
+          have := (lookupW_some (by rw [← hw1] at h3; exact h3 : lookupW (setW p w1) x = some w1)).2
+          rw [hw1, assignOne_op, (lookupW_some hw).2] at this
+          exact this.symm
+        subst hx
+        exact ⟨w, hw, by rw [← h2, hw1, assignOne_mode]⟩
+      · rw [h3] at h1
+        exact ⟨w1, h1, h2⟩
+
 end WK.C06
